@@ -244,6 +244,16 @@ fn handle(req: &Req) -> Value {
                     json!(facts::free_idents(&input, unresolved_mark)),
                 );
             }
+            if want("ident_in") {
+                // the identity pipeline (no transform at all) on the same source text
+                o.insert(
+                    "ident_in".into(),
+                    match pipeline_text(&req.src, req.ts, &Entry::None, &None) {
+                        Ok(s) => json!(s),
+                        Err(e) => json!({ "error": e }),
+                    },
+                );
+            }
             if want("input_print") {
                 let r = catch_unwind(AssertUnwindSafe(|| {
                     to_code_default(cm.clone(), None, &input)
